@@ -71,8 +71,8 @@ func NewWithOptions(opts *Options) *MemFS {
 
 		volumeName = avfs.DefaultVolume
 		curDir = volumeName + string(vfs.PathSeparator())
-		vfs.volumes = make(volumes)
-		vfs.volumes[volumeName] = vfs.rootNode
+		vfs.volumes = &volumes{roots: make(map[string]*dirNode)}
+		vfs.volumes.add(volumeName, vfs.rootNode)
 	}
 
 	_ = vfs.SetCurDir(curDir)
@@ -111,12 +111,9 @@ func (vfs *MemFS) VolumeAdd(path string) error {
 		return &fs.PathError{Op: op, Path: path, Err: avfs.ErrVolumeNameInvalid}
 	}
 
-	_, ok := vfs.volumes[vol]
-	if ok {
+	if !vfs.volumes.add(vol, vfs.createRootNode()) {
 		return &fs.PathError{Op: op, Path: path, Err: avfs.ErrVolumeAlreadyExists}
 	}
-
-	vfs.volumes[vol] = vfs.createRootNode()
 
 	return nil
 }
@@ -135,7 +132,7 @@ func (vfs *MemFS) VolumeDelete(path string) error {
 		return &fs.PathError{Op: op, Path: path, Err: avfs.ErrVolumeNameInvalid}
 	}
 
-	_, ok := vfs.volumes[vol]
+	_, ok := vfs.volumes.root(vol)
 	if !ok {
 		return &fs.PathError{Op: op, Path: path, Err: avfs.ErrVolumeNameInvalid}
 	}
@@ -145,22 +142,16 @@ func (vfs *MemFS) VolumeDelete(path string) error {
 		return err
 	}
 
-	delete(vfs.volumes, vol)
+	vfs.volumes.remove(vol)
 
 	return nil
 }
 
 // VolumeList returns the volumes of the file system.
 func (vfs *MemFS) VolumeList() []string {
-	var l []string //nolint:prealloc // Consider preallocating `l`
-
 	if vfs.OSType() != avfs.OsWindows {
-		return l
+		return nil
 	}
 
-	for v := range vfs.volumes {
-		l = append(l, v)
-	}
-
-	return l
+	return vfs.volumes.names()
 }
